@@ -141,7 +141,7 @@ func (m *ErrorMessage) UnmarshalBinary(data []byte) error {
 		return fmt.Errorf("failed to decode compact length")
 	}
 
-	if len(data) < bytesRead+int(length) {
+	if length > uint64(len(data)-bytesRead) {
 		return fmt.Errorf("data too short for error message")
 	}
 
@@ -270,6 +270,10 @@ func (m *PeerInfo) UnmarshalBinary(data []byte) error {
 	// skip the already read compact length bytes
 	buffer.Next(bytesRead)
 
+	if nameLength > uint64(buffer.Len()) {
+		return fmt.Errorf("data too short for app name")
+	}
+
 	nameBuffer := make([]byte, nameLength)
 	_, err = io.ReadFull(buffer, nameBuffer)
 	if err != nil {
@@ -386,12 +390,23 @@ func (m *Message) ReadFrom(reader io.Reader) (int64, error) {
 	}
 	totalBytesRead += 1
 
-	payload := make([]byte, encodedMessageLength-1)
-	bytesRead, err := io.ReadFull(reader, payload)
-	totalBytesRead += int64(bytesRead)
+	// The length counts the type byte, so it is at least 1 (0 would wrap to 2^32-1 below).
+	if encodedMessageLength == 0 {
+		return totalBytesRead, ErrInvalidFrameLength
+	}
+
+	// Read the payload as it arrives instead of allocating the declared length up front:
+	// the memory used is then bounded by the bytes the peer really sent.
+	var payloadBuffer bytes.Buffer
+	bytesRead, err := io.CopyN(&payloadBuffer, reader, int64(encodedMessageLength-1))
+	totalBytesRead += bytesRead
 	if err != nil {
+		if err == io.EOF && bytesRead > 0 {
+			err = io.ErrUnexpectedEOF
+		}
 		return totalBytesRead, err
 	}
+	payload := payloadBuffer.Bytes()
 
 	var unmarshaler encoding.BinaryUnmarshaler
 
